@@ -83,6 +83,7 @@ def verus_obligations(prop, unit_name, tier):
         obs.append(o)
         return obs, res, unit
     fns = res['functions']
+    restructured = res.get('restructured', {}) or {}
     lost = {}
     for n in res['notes']:
         m = re.match(r'lost hint anchor in (\w+):', n)
@@ -113,6 +114,11 @@ def verus_obligations(prop, unit_name, tier):
         short = q.split('::')[-1]
         if not fr.errors:
             o.verdict = 'undecided'; o.reason = 'verifier reported failure without a diagnostic'
+        elif re.sub(r'_case\d+$', '', short) in restructured:
+            # R14: a loop of this function was rewritten; the template's invariant / variant were written for the old loop, so a
+            # failure says nothing about the code
+            o.verdict = 'undecided'
+            o.reason += ' [' + restructured[re.sub(r'_case\d+$', '', short)] + ']'
         elif 'semantic' in classes and classes <= {'semantic', 'rlimit'} and short not in lost:
             # a resource limit hit while Verus kept searching for FURTHER errors of the same function does not retract the
             # failed obligation it already reported with a counter-model
